@@ -10,7 +10,10 @@
                           (±inf, opaque objects) with itself only.  This is what pandas' `unique()` / `nunique()`
                           does on object columns and on numeric dtypes (hash table keyed by `hash` / `==`);
   * `missingValues col`   the number of missing cells (None, NaN, pd.NA, pd.NaT: one value class, `Cell.missing`);
-  * `percentString k n`   Python's `str(round(float(k) / float(n) * 100, 2))`;
+  * `percentString k n`   Python's `str(round(float(k) / float(n) * 100, 2))` for `n ≥ 1`; for a table without rows
+                          (`n = 0`) the Python expression has no value, the code (since /repo 39fa1bc) takes `0.0`
+                          instead, and so does this definition: `k / 0 = 0` in `Rat`, hence `percentDouble k 0 = 0`,
+                          `percentString k 0 = "0.0"` (proved: `Proofs/ProfilerExact.lean`, `percentString_zero_rows`);
   * `statString k n`      the entry `'<k> (<percent>%)'`.
 
   TRUSTED (the only assumption about CPython's `repr(float)` in this file): for `0 ≤ c ≤ 10000`,
@@ -76,7 +79,7 @@ def reprHundredths (c : Nat) : String :=
   let d2 := c % 10
   if d2 = 0 then s!"{c / 100}.{d1}" else s!"{c / 100}.{d1}{d2}"
 
-/-- `str(round(float(k) / float(n) * 100, 2))` -/
+/-- `str(round(float(k) / float(n) * 100, 2))`; "0.0" for `n = 0` (see the header) -/
 def percentString (k n : Nat) : String := reprHundredths (hundredths (percentDouble k n))
 
 /-- the entry of the 'Unique values' / 'Missing values' column for the count `k` in a table of `n` rows -/
